@@ -332,7 +332,7 @@ class TaskManager(rpu.ClientComponent):
                 self._log.debug('pilot %s is final', pid)
 
                 tasks = list()
-                for task in self._tasks.values():
+                for task in list(self._tasks.values()):
 
                     # only this pilot's tasks which are not yet final
                     if task.pilot != pid or task.state in rps.FINAL:
